@@ -121,7 +121,7 @@ func init() {
 							// once the store is healthy again: does the pre-sign-out cookie still authenticate?
 							again := w.do(vpReq{Target: "/private", Cookie: orig})
 							obs["loadableAfter"] = again.UpHits > 0
-							obs["falseSuccess"] = r.Status == 302 && again.UpHits > 0
+							obs["falseSuccess"] = r.Status >= 300 && r.Status < 400 && again.UpHits > 0
 						}
 					case "ready":
 						arm()
